@@ -93,6 +93,10 @@ def header_case(ctx, rng):
     integ = rng.choice(["generic", "rdflib"])
     cfg = {"integration": integ, "physical": phys, "entry": "stream_frames_gen", "frame_size": 250, "preset": preset,
            "delimited": delimited, "logical": logical, "params_build": rng.choice(["direct", "direct", "version1", "replace"]), **params}
+    tr = gen.rng_for("transport", sorted((k, repr(v)) for k, v in cfg.items())).random()
+    if tr < .24:
+        cfg["options_transport"] = ["copy", "deepcopy", "pickle"][int(tr / .08)]
+        ctx.observe(f"options-transport:{cfg['options_transport']}")
     arity = 3 if phys == 1 else 4
     st = tuple([("iri", "http://e/s"), ("iri", "http://e/p"), ("bnode", "b")] + ([("default",)] if arity == 4 else []))
     if preset[1] == 0:
